@@ -190,6 +190,8 @@ def gen_case(h: Harness, kind: str):
     if kind != "simplegp" and rng.random() < 0.35:
         names = rng.sample(pool[:5] + ["Fitness0", "Phenotype"], rng.randint(1, 3))
         fields = [(n, rng.randrange(20)) for n in names]
+    elif kind != "simplegp" and rng.random() < 0.15:
+        fields = []      # an explicitly EMPTY set of fields: the log has the extra columns only
     n_extra = rng.choice([0, 1, 2, 2, 3]) if kind != "simplegp" else rng.choice([0, 1, 2, 2, 2, 3, 3])
     extra_names_pool = pool + [f"Fitness{j}" for j in range(k + 1)] * (1 if rng.random() < 0.4 else 0) \
         + (["Phenotype", "Execution_Time"] if rng.random() < 0.2 else [])
@@ -217,6 +219,10 @@ CORPUS = [
     dict(kind="recorder", k=4, only_best=False, fields=[("c0", 1), ("c1", 2)], extras=[("c1", 23), ("c2", 24)],
          minimize=[False] * 4, history=[(0, 1, [1, 2, 3, 4], False), (1, 2, [4, 3, 2, 1], True)], force_multi=False),
     dict(kind="recorder", k=2, only_best=True, fields=None, extras=[], minimize=[False, False], history=[], force_multi=False),
+    dict(kind="recorder", k=2, only_best=False, fields=[], extras=[("c1", 23), ("c2", 24)], minimize=[False, True],
+         history=[(0, 1, [1, 2], False), (1, 2, [4, 3], True)], force_multi=False),
+    dict(kind="tracker", k=1, only_best=False, fields=[], extras=[("c0", 25)], minimize=[False],
+         history=[(0, 0, [3], False), (1, 1, [5], False)], force_multi=False),
     dict(kind="tracker", k=1, only_best=True, fields=None, extras=[], minimize=[False],
          history=[(0, 0, [3], False), (1, 1, [3], False), (2, 2, [5], False), (3, 3, [4], False), (4, 0, [7], False)],
          force_multi=False),
